@@ -138,7 +138,12 @@ def gen_case(rng, tier, g):
     return {'prop': PROP, 'machine': 'lookup', 'fn': fn, 'table': table,
             'table2': gen_table(rng, 4, nfields=nf, ragged=False),
             'key': key, 'value': value, 'strict': rng.random() < 0.5,
-            'reuse_dict': rng.random() < 0.4}
+            'reuse_dict': rng.random() < 0.4,
+            # what the user-supplied dictionary is: a dict, or a mapping
+            # that hands out copies of its values (like a shelf without
+            # writeback, which the lookup functions document support for)
+            'dict_kind': rng.choice(['dict', 'dict', 'copying',
+                                     'ordered'])}
 
 
 # ---------------------------------------------------------------------------
@@ -392,6 +397,15 @@ def _lookup_model(fn, table, key, value, strict, start=None):
     return d, dup
 
 
+class _CopyingDict(dict):
+    """__getitem__ returns a copy of a stored list, as shelve does without
+    writeback: appending to what it returns changes nothing."""
+
+    def __getitem__(self, k):
+        v = dict.__getitem__(self, k)
+        return list(v) if isinstance(v, list) else v
+
+
 def _canon_lookup(d):
     out = []
     for k, v in d.items():
@@ -416,7 +430,16 @@ def _run_lookup(e, case, log, probes):
     what = '%s(key=%r, %r)' % (fn, case['key'], kw)
     f = getattr(e, fn)
     src = SimTable([list(r) for r in table], mode='alias')
-    userdict = {} if case['reuse_dict'] else None
+    userdict = None
+    if case['reuse_dict']:
+        kind_ = case.get('dict_kind', 'dict')
+        if kind_ == 'copying':
+            userdict = _CopyingDict()
+        elif kind_ == 'ordered':
+            import collections
+            userdict = collections.OrderedDict()
+        else:
+            userdict = {}
     try:
         if userdict is not None:
             got = f(src, case['key'], dictionary=userdict, **kw)
@@ -444,7 +467,7 @@ def _run_lookup(e, case, log, probes):
     # records: compare as tuples
     g = dict((k, ([tuple(x) for x in v] if fn == 'recordlookup'
                   else tuple(v) if fn == 'recordlookupone' else v))
-             for k, v in got.items())
+             for k, v in dict.items(got))
     gc_, gorder = _canon_lookup(g)
     wc_, worder = _canon_lookup(want)
     log.add('lookup', gc_)
@@ -472,7 +495,7 @@ def _run_lookup(e, case, log, probes):
             return len(table) > 1
         g2 = dict((k, ([tuple(x) for x in v] if fn == 'recordlookup'
                        else tuple(v) if fn == 'recordlookupone' else v))
-                  for k, v in userdict.items())
+                  for k, v in dict.items(userdict))
         if _canon_lookup(g2) != _canon_lookup(want2):
             raise _Bad('lookup-reuse-differs',
                        '%s loading a second table into the same dictionary '
